@@ -60,15 +60,16 @@ ATTR_ASPECT = {"min_rounds": "rounds", "max_rounds": "rounds", "rounds_cost": "r
                "min_salt_size": "salt", "max_salt_size": "salt", "default_salt_size": "salt", "default_ident": "ident",
                "truncate_size": "truncate", "truncate_error": "truncate"}
 ASPECT_METHODS = {
-    "rounds": ("using", "_generate_rounds", "_calc_vary_rounds_range", "_clip_to_desired_rounds", "_norm_rounds"),
-    "needs_update": ("_calc_needs_update", "needs_update"),
-    "salt": ("using", "_norm_salt", "_clip_to_valid_salt_size", "_generate_salt"),
-    "ident": ("using", "_norm_ident"),
-    "truncate": ("using", "_check_truncate_policy"),
+    "rounds": ("_norm_rounds", "_clip_to_desired_rounds"),
+    "rounds_made": ("_generate_rounds", "_calc_vary_rounds_range", "_clip_to_desired_rounds"),
+    "needs_update": ("_calc_needs_update",),
+    "salt": ("_norm_salt", "_clip_to_valid_salt_size", "_generate_salt"),
+    "ident": ("_norm_ident",),
+    "truncate": ("_check_truncate_policy",),
     "other": ("using",),
 }
-ASPECT_MIXIN = {"rounds": "HasRounds", "needs_update": "HasRounds", "salt": "HasSalt", "ident": "HasManyIdents",
-                "truncate": "TruncateMixin", "other": "MinimalHandler"}
+ASPECT_MIXIN = {"rounds": "HasRounds", "rounds_made": "HasRounds", "needs_update": "HasRounds", "salt": "HasSalt",
+                "ident": "HasManyIdents", "truncate": "TruncateMixin", "other": "MinimalHandler"}
 OPT_ASPECT = {"rounds": "rounds", "min_rounds": "rounds", "max_rounds": "rounds", "min_desired_rounds": "rounds",
               "max_desired_rounds": "rounds", "default_rounds": "rounds", "vary_rounds": "rounds", "salt_size": "salt",
               "default_salt_size": "salt", "salt": "salt", "ident": "ident", "default_ident": "ident",
@@ -383,4 +384,1561 @@ def raw_restore(snap):
                     pass
 
 
-# ==END==
+# ---------------------------------------------------------------------------
+# violation keys: component = the class that owns the mechanism (format-specific class overriding it, else the mixin)
+# ---------------------------------------------------------------------------
+def component(M, aspect):
+    if aspect == "wrapper":
+        return "PrefixWrapper"
+    inner = ASPECT_MIXIN.get(aspect, "MinimalHandler")
+    methods = ASPECT_METHODS.get(aspect, ("using",))
+    if isinstance(M.T0, type):
+        for c in M.T0.__mro__:
+            if str(getattr(c, "__module__", "")).startswith("passlib.handlers") and any(m in vars(c) for m in methods):
+                inner = getattr(c, "name", None) or c.__name__
+                break
+    return ("PrefixWrapper>" + inner) if M.wrapper else inner
+
+
+def key(M, aspect, cls):
+    return f"C09|{component(M, aspect)}|{cls}"
+
+
+# ---------------------------------------------------------------------------
+# event alphabet (explicit, ordered simplest-first).  lvl: 0 tiny, 1 core, 2 full, 3 extra
+# ---------------------------------------------------------------------------
+def rounds_values(M):
+    mn, mx = M.mn, M.mx
+    ins = (mn + 1, mn + 2, mn + 4) if M.log2 else (mn + 1, mn + 4, mn + 9)
+    below = mn - 1 if mn >= 1 else -1
+    return {"far_below": -3 if below != -3 else -7, "below_min": below, "at_min": mn, "in1": ins[0], "in2": ins[1],
+            "in3": ins[2], "at_max": mx, "above_max": mx + 1, "far_above": mx * 16 + 5}
+
+
+def pinned_salt(M, size, seed, variant):
+    if M.is_scrypt:
+        abc = b"./0123456789ABCDEFGHIJKLMNOPQRSTUVWXYZabcdefghijklmnopqrstuvwxyz"
+        return bytes(abc[(seed * 3 + variant * 11 + i * 5) % 64] for i in range(size))
+    return HS.make_salt(M.inner_name, size, seed, variant)
+
+
+def option_events(M, seed):
+    """[(lvl, group, opts, relaxed, tag)]"""
+    out = []
+
+    def add(lvl, group, opts, relaxed, tag):
+        out.append((lvl, group, opts, bool(relaxed), tag))
+
+    # ---- rounds family
+    if M.has_rounds:
+        V = rounds_values(M)
+        tiny = {"rounds": "in2", "default_rounds": "in2", "min_rounds": "in3", "max_rounds": "in1"}
+        for k in ("rounds", "min_rounds", "max_rounds", "default_rounds"):
+            for vc in ("in2", "in1", "in3", "at_min"):
+                add(0 if tiny[k] == vc else 1, k, {k: V[vc]}, False, f"{k}:{vc}:num")
+            add(1, k, {k: V["above_max"]}, False, f"{k}:above_max:num")
+            add(1, k, {k: V["above_max"]}, True, f"{k}:above_max:num")
+            add(1, k, {k: V["below_min"]}, True, f"{k}:below_min:num")
+            add(2, k, {k: V["below_min"]}, False, f"{k}:below_min:num")
+            add(2, k, {k: V["at_max"]}, False, f"{k}:at_max:num")
+            for vc in ("far_below", "far_above"):
+                add(2, k, {k: V[vc]}, False, f"{k}:{vc}:num")
+                add(2, k, {k: V[vc]}, True, f"{k}:{vc}:num")
+            add(2, k, {k: str(V["in2"])}, False, f"{k}:in2:str")
+            add(2, k, {k: str(V["at_max"])}, False, f"{k}:at_max:str")
+            add(2, k, {k: str(V["above_max"])}, False, f"{k}:above_max:str")
+            add(2, k, {k: str(V["above_max"])}, True, f"{k}:above_max:str")
+            add(2, k, {k: str(V["below_min"])}, False, f"{k}:below_min:str")
+            for vc in ("in1", "in3", "at_min", "far_above", "far_below"):
+                add(3, k, {k: str(V[vc])}, False, f"{k}:{vc}:str")
+            add(3, k, {k: str(V["below_min"])}, True, f"{k}:below_min:str")
+            for vc in ("in2", "at_min", "at_max"):
+                add(3, k, {k: V[vc]}, True, f"{k}:{vc}:num")
+        g = "window"
+        for k in ("min_desired_rounds", "max_desired_rounds"):
+            add(2, g, {k: V["in2"]}, False, f"{k}:in2:num")
+            add(2, g, {k: V["above_max"]}, False, f"{k}:above_max:num")
+            add(3, g, {k: str(V["in1"])}, False, f"{k}:in1:str")
+            add(3, g, {k: V["below_min"]}, True, f"{k}:below_min:num")
+        add(2, g, {"min_rounds": V["in1"], "max_rounds": V["in3"]}, False, "min_rounds+max_rounds:ordered:num")
+        add(2, g, {"min_rounds": V["in3"], "max_rounds": V["in1"]}, False, "min_rounds+max_rounds:inverted:num")
+        add(2, g, {"min_rounds": V["in2"], "max_rounds": V["in2"]}, False, "min_rounds+max_rounds:equal:num")
+        add(2, g, {"rounds": V["in2"], "max_rounds": V["in3"]}, False, "rounds+max_rounds:ordered:num")
+        add(2, g, {"rounds": V["in2"], "min_rounds": V["in1"]}, False, "rounds+min_rounds:ordered:num")
+        add(2, g, {"rounds": V["in2"], "default_rounds": V["in3"]}, False, "rounds+default_rounds:outside:num")
+        add(2, g, {"min_rounds": V["in1"], "min_desired_rounds": V["in1"]}, False, "min_rounds+min_desired_rounds:both:num")
+        add(3, g, {"max_rounds": V["in3"], "max_desired_rounds": V["in3"]}, False, "max_rounds+max_desired_rounds:both:num")
+        add(3, g, {"min_rounds": str(V["in1"]), "max_rounds": str(V["in3"]), "default_rounds": str(V["in2"])}, False,
+            "min_rounds+max_rounds+default_rounds:ordered:str")
+        g = "vary_rounds"
+        add(0, g, {g: 1}, False, "vary_rounds:int1:num")
+        add(1, g, {g: 0.5}, False, "vary_rounds:half:num")
+        for lvl, val, vc, form in ((2, 0, "zero", "num"), (2, 5, "int5", "num"), (2, "10%", "percent", "str"),
+                                   (2, "0.25", "fraction", "str"), (2, "3", "int3", "str"), (2, 1.0, "one", "num"),
+                                   (2, -1, "negative", "num"), (2, 1.5, "above_one", "num"), (2, "-1", "negative", "str"),
+                                   (2, "150%", "above_one", "str"), (2, 10**12, "huge", "num"), (3, 0.1, "tenth", "num"),
+                                   (3, "100%", "one", "str"), (3, "0", "zero", "str"), (3, 2, "int2", "num")):
+            add(lvl, g, {g: val}, False, f"vary_rounds:{vc}:{form}")
+        add(3, g, {g: 1}, True, "vary_rounds:int1:num")
+    elif M.name not in ("htdigest",):
+        add(2, "misc", {"rounds": 5}, False, "rounds:unsupported:num")
+    # ---- salt size
+    if M.has_ssize:
+        g = "salt_size"
+        mn, mx = M.mn_s or 0, M.mx_s
+        df = M.root.get("ssize") or mn
+        inside = mn + 1 if (mx is None or mn + 1 < mx) and mn + 1 != df else (8 if (mx is None or 8 < mx) and 8 > mn else mn)
+        below = mn - 1 if mn >= 1 else -1
+        add(0, g, {g: inside}, False, "salt_size:inside:num")
+        add(1, g, {g: mn}, False, "salt_size:at_min:num")
+        add(1, g, {g: below}, True, "salt_size:below_min:num")
+        add(2, g, {g: below}, False, "salt_size:below_min:num")
+        add(2, g, {g: str(inside)}, False, "salt_size:inside:str")
+        add(2, g, {"default_salt_size": inside}, False, "default_salt_size:inside:num")
+        add(2, g, {"default_salt_size": inside, "salt_size": inside}, False, "salt_size+default_salt_size:both:num")
+        add(3, g, {g: str(below)}, True, "salt_size:below_min:str")
+        add(3, g, {g: inside}, True, "salt_size:inside:num")
+        if mx is not None:
+            add(1, g, {g: mx + 1}, False, "salt_size:above_max:num")
+            add(1, g, {g: mx + 1}, True, "salt_size:above_max:num")
+            add(2, g, {g: mx}, False, "salt_size:at_max:num")
+            add(2, g, {g: mx * 10 + 3}, False, "salt_size:far_above:num")
+            add(2, g, {g: mx * 10 + 3}, True, "salt_size:far_above:num")
+            add(2, g, {g: str(mx + 1)}, False, "salt_size:above_max:str")
+            add(2, g, {g: str(mx + 1)}, True, "salt_size:above_max:str")
+            add(3, g, {g: str(mx)}, False, "salt_size:at_max:str")
+        else:
+            add(2, g, {g: 40}, False, "salt_size:large:num")
+    # ---- explicit salt
+    if M.cisco7:
+        g = "salt"
+        add(0, g, {g: 7}, False, "salt:inside:num")
+        add(1, g, {g: 0}, False, "salt:at_min:num")
+        add(1, g, {g: 52}, False, "salt:at_max:num")
+        for val, vc in ((53, "above_max"), (-1, "below_min"), (99, "far_above")):
+            add(2, g, {g: val}, False, f"salt:{vc}:num")
+            add(2, g, {g: val}, True, f"salt:{vc}:num")
+        add(2, g, {g: "7"}, False, "salt:inside:str")
+    elif M.has_salt:
+        g = "salt"
+        mn, mx = M.mn_s or 0, M.mx_s
+        df = M.root.get("ssize") or mx or mn or 8
+        add(0, g, {g: pinned_salt(M, df, seed, 1)}, False, "salt:legal_default_size")
+        other = mn if (mn and mn != df) else (df + 1 if (mx is None or df + 1 <= mx) else df)
+        add(2, g, {g: pinned_salt(M, other, seed, 2)}, False, "salt:legal_other")
+        add(3, g, {g: pinned_salt(M, df, seed, 3)}, True, "salt:legal_default_size")
+        if mn >= 1:
+            add(2, g, {g: pinned_salt(M, mn - 1, seed, 4)}, False, "salt:too_short")
+            add(2, g, {g: pinned_salt(M, mn - 1, seed, 4)}, True, "salt:too_short")
+        if mx is not None:
+            long_ = pinned_salt(M, mx, seed, 5)
+            long_ = long_ + (long_[:1] if not isinstance(long_, str) else ".")
+            add(1, g, {g: long_}, False, "salt:too_long")
+            add(1, g, {g: long_}, True, "salt:too_long")
+        if not M.raw_salt:
+            bad = pinned_salt(M, df, seed, 6)
+            bc = next(c for c in "!$ é" if c not in (M.salt_chars or ""))
+            add(2, g, {g: bad[:-1] + bc}, False, "salt:bad_char")
+            add(3, g, {g: bad[:-1] + bc}, True, "salt:bad_char")
+            add(2, g, {g: bad.encode("ascii")}, False, "salt:wrong_type")
+        else:
+            add(2, g, {g: "A" * df}, False, "salt:wrong_type")
+    # ---- ident
+    if M.has_ident:
+        g = "ident"
+        dflt = M.root.get("ident")
+        for i in M.idents:
+            add(0 if i != dflt and i == M.idents[0] else 1, g, {g: i}, False, f"ident:{i.strip('$') or 'empty'}")
+        for a in sorted(M.aliases):
+            if "2x" not in a:
+                add(2, g, {g: a}, False, f"ident:alias_{a}")
+        add(2, g, {g: "xx"}, False, "ident:invalid")
+        add(2, g, {g: "xx"}, True, "ident:invalid")
+        add(2, g, {g: ""}, False, "ident:empty")
+        add(2, g, {"default_ident": M.idents[0]}, False, "default_ident:valid")
+        add(2, g, {"default_ident": M.idents[0], "ident": M.idents[0]}, False, "ident+default_ident:both")
+        add(3, g, {g: M.idents[0].encode("ascii")}, False, "ident:bytes")
+    # ---- truncate_error
+    if M.trunc_size is not None:
+        g = "truncate_error"
+        add(0, g, {g: True}, False, "truncate_error:true:bool")
+        add(1, g, {g: False}, False, "truncate_error:false:bool")
+        for lvl, val in ((2, "true"), (2, "false"), (2, "yes"), (2, "0"), (3, "no"), (3, "on"), (3, "off"), (3, "1"), (3, "TRUE")):
+            add(lvl, g, {g: val}, False, f"truncate_error:{val.lower()}:str")
+        add(2, g, {g: "maybe"}, False, "truncate_error:invalid:str")
+        add(3, g, {g: True}, True, "truncate_error:true:bool")
+    elif M.generic or M.name in ("plaintext",):
+        add(3, "misc", {"truncate_error": True}, False, "truncate_error:unsupported")
+    # ---- format specific
+    g = "special"
+    if M.is_fshp:
+        add(0, g, {"variant": 3}, False, "variant:at_max:num")
+        add(1, g, {"variant": 0}, False, "variant:at_min:num")
+        for lvl, val, vc in ((2, 1, "inside:num"), (2, 2, "inside2:num"), (2, "0", "at_min:str"), (2, "sha512", "alias_sha512"),
+                             (2, "sha1", "alias_sha1"), (2, 4, "above_max:num"), (2, -1, "below_min:num"), (2, "4", "above_max:str"),
+                             (2, "md5", "alias_invalid"), (2, 1.5, "float"), (3, b"sha256", "alias_bytes"), (3, 40, "far_above:num"),
+                             (3, "sha384", "alias_sha384")):
+            add(lvl, g, {"variant": val}, False, f"variant:{vc}")
+        add(2, g, {"variant": 4}, True, "variant:above_max:num")
+    if M.is_bsha:
+        add(0, g, {"version": 1}, False, "version:at_min:num")
+        add(1, g, {"version": 2}, False, "version:at_max:num")
+        add(1, g, {"version": 1, "ident": "2a"}, False, "version+ident:v1_2a")
+        for lvl, val, vc in ((2, 0, "below_min:num"), (2, 3, "above_max:num"), (2, "1", "at_min:str"), (3, 30, "far_above:num"), (3, "2", "at_max:str")):
+            add(lvl, g, {"version": val}, False, f"version:{vc}")
+        add(2, g, {"version": 3}, True, "version:above_max:num")
+        add(2, g, {"version": 2, "ident": "2a"}, False, "version+ident:v2_2a")
+    if M.is_scrypt:
+        add(0, g, {"block_size": 2}, False, "block_size:inside:num")
+        add(1, g, {"block_size": 1}, False, "block_size:at_min:num")
+        add(1, g, {"parallelism": 2}, False, "parallelism:inside:num")
+        for k in ("block_size", "parallelism"):
+            add(2, g, {k: "2"}, False, f"{k}:inside:str")
+            for val, vc in ((0, "below_min"), (-1, "far_below"), (1 << 30, "far_above")):
+                add(2, g, {k: val}, False, f"{k}:{vc}:num")
+                add(2, g, {k: val}, True, f"{k}:{vc}:num")
+            add(3, g, {k: "0"}, True, f"{k}:below_min:str")
+        add(2, g, {"block_size": 8}, False, "block_size:default:num")
+        add(2, g, {"parallelism": 1}, False, "parallelism:at_min:num")
+        add(2, g, {"block_size": 1 << 15, "parallelism": 1 << 15}, False, "block_size+parallelism:product_above_max")
+    if M.is_scram:
+        add(0, g, {"algs": "sha-1"}, False, "algs:sha1_only")
+        add(1, g, {"algs": "sha-1,sha-256"}, False, "algs:two")
+        for lvl, val, vc in ((2, ["sha-1", "sha-512"], "list"), (2, "md5,sha-1", "with_md5"), (2, "sha-256", "no_sha1"),
+                             (2, "sha-1,averyveryverylongname", "name_too_long"), (2, "sha1,sha256", "aliases"),
+                             (3, "sha-1,sha-256,sha-512", "all"), (3, ["sha-256"], "list_no_sha1")):
+            add(lvl, g, {"algs": val}, False, f"algs:{vc}")
+        add(2, g, {"default_algs": "sha-1,sha-512"}, False, "default_algs:two")
+        add(2, g, {"algs": "sha-256"}, True, "algs:no_sha1")
+    if M.is_unixdis:
+        add(0, g, {"marker": "*"}, False, "marker:star")
+        add(1, g, {"marker": "!"}, False, "marker:bang")
+        for lvl, val, vc in ((2, "!!", "double_bang"), (2, "*LK*", "solaris_lock"), (2, "x", "invalid_char"),
+                             (2, "$1$abc", "looks_like_hash"), (2, "", "empty"), (3, "!locked", "bang_text")):
+            add(lvl, g, {"marker": val}, False, f"marker:{vc}")
+        add(2, g, {"marker": "x"}, True, "marker:invalid_char")
+    # ---- generic
+    add(2, "misc", {}, False, "no_options")
+    add(2, "misc", {}, True, "no_options")
+    add(2, "misc", {"bogus_option": 1}, False, "unknown_keyword")
+    add(3, "misc", {"bogus_option": 1}, True, "unknown_keyword")
+    return out
+
+
+_EVENTS = {}
+
+
+def events_of(M, seed):
+    k = (M.name, seed)
+    if k not in _EVENTS:
+        _EVENTS[k] = option_events(M, seed)
+    return _EVENTS[k]
+
+
+SETATTRS = ("default_rounds", "default_salt_size", "truncate_error", "vary_rounds")
+
+# ---------------------------------------------------------------------------
+# reference model of using():  predict(M, parent model, options, relaxed) -> (acceptable exception names,
+# [(new model, clamped)]);  several acceptable outcomes where the documentation leaves the choice open
+# ---------------------------------------------------------------------------
+class Refuse(Exception):
+    def __init__(self, *names):
+        self.names = set(names)
+
+
+def _toint(v):
+    if isinstance(v, bool):
+        raise Refuse("TypeError", "ValueError")
+    if isinstance(v, int):
+        return v
+    if isinstance(v, str):
+        try:
+            return int(v)
+        except ValueError:
+            raise Refuse("ValueError") from None
+    raise Refuse("TypeError")
+
+
+def clip(x, lo, hi):
+    if lo is not None and x < lo:
+        x = lo
+    if hi is not None and x > hi:
+        x = hi
+    return x
+
+
+def g_rounds(M, P, o, relaxed):
+    """-> (extra acceptable exceptions, [(updates, clamped)])"""
+    if ("min_rounds" in o and "min_desired_rounds" in o) or ("max_rounds" in o and "max_desired_rounds" in o):
+        raise Refuse("TypeError")
+    m = o.get("min_rounds", o.get("min_desired_rounds"))
+    mxv = o.get("max_rounds", o.get("max_desired_rounds"))
+    d = o.get("default_rounds")
+    r = o.get("rounds")
+    v = o.get("vary_rounds")
+    m = None if m is None else _toint(m)
+    mxv = None if mxv is None else _toint(mxv)
+    d = None if d is None else _toint(d)
+    r = None if r is None else _toint(r)
+    if r is not None:
+        m = r if m is None else m
+        mxv = r if mxv is None else mxv
+        d = r if d is None else d
+    clamped = [False]
+    extra = set()
+
+    def hard(x):
+        if x < M.mn:
+            if not relaxed:
+                raise Refuse("ValueError")
+            clamped[0] = True
+            return M.mn
+        if M.mx is not None and x > M.mx:
+            if not relaxed:
+                raise Refuse("ValueError")
+            clamped[0] = True
+            return M.mx
+        return x
+
+    p_mn, p_mx = P.get("mn_d"), P.get("mx_d")
+    windows = []  # alternatives (mn_d, mx_d)
+    if m is not None and mxv is not None:
+        if mxv < m:
+            raise Refuse("ValueError")
+        windows.append((hard(m), hard(mxv)))
+    elif m is not None:
+        nm = hard(m)
+        if p_mx is not None and nm > p_mx:
+            # lower bound above the inherited upper bound: refuse, or move one bound so the window stays non-empty
+            extra.add("ValueError")
+            windows += [(nm, nm), (p_mx, p_mx)]
+        else:
+            windows.append((nm, p_mx))
+    elif mxv is not None:
+        if p_mn and mxv < p_mn:
+            extra.add("ValueError")
+            windows.append((p_mn, hard(p_mn)))
+        else:
+            windows.append((p_mn, hard(mxv)))
+    else:
+        windows.append((p_mn, p_mx))
+    alts = []
+    for w_mn, w_mx in windows:
+        lo = w_mn or 0
+        hi = w_mx
+        if d is not None:
+            dn = hard(d)
+            if dn < lo or d < lo or (hi is not None and (dn > hi or d > hi)):
+                extra.add("ValueError")  # "they limit what values are allowed for default_rounds"
+            nd = clip(dn, lo, hi)
+        else:
+            nd = P.get("dflt")
+            if nd is not None:
+                nd = clip(nd, lo, hi)
+        alts.append(({"mn_d": w_mn, "mx_d": w_mx, "dflt": nd}, clamped[0]))
+    if v is not None:
+        if isinstance(v, str):
+            try:
+                if v.endswith("%"):
+                    v = float(v[:-1]) * 0.01
+                elif "." in v:
+                    v = float(v)
+                else:
+                    v = int(v)
+            except ValueError:
+                raise Refuse("ValueError") from None
+        if isinstance(v, bool) or not isinstance(v, (int, float)):
+            raise Refuse("TypeError")
+        if v < 0 or (isinstance(v, float) and v > 1):
+            raise Refuse("ValueError")
+        for upd, _c in alts:
+            upd["vary"] = v
+    return extra, alts
+
+
+def g_salt_size(M, P, o, relaxed):
+    if "salt_size" in o and "default_salt_size" in o:
+        raise Refuse("TypeError")
+    v = _toint(o.get("salt_size", o.get("default_salt_size")))
+    mn, mx = M.mn_s or 0, M.mx_s
+    c = False
+    if mx is not None and mn == mx and v != mn:
+        if not relaxed:
+            raise Refuse("ValueError")
+        v, c = mn, True
+    if v < mn:
+        if not relaxed:
+            raise Refuse("ValueError")
+        v, c = mn, True
+    if mx is not None and v > mx:
+        if not relaxed:
+            raise Refuse("ValueError")
+        v, c = mx, True
+    return set(), [({"ssize": v}, c)]
+
+
+def g_salt(M, P, o, relaxed):
+    s = o["salt"]
+    if M.cisco7:
+        if isinstance(s, str):
+            try:
+                return {"TypeError", "ValueError"}, [({"pin": int(s)}, False)]
+            except ValueError:
+                raise Refuse("TypeError", "ValueError") from None
+        if isinstance(s, bool) or not isinstance(s, int):
+            raise Refuse("TypeError")
+        if 0 <= s <= 52:
+            return set(), [({"pin": s}, False)]
+        if not relaxed:
+            raise Refuse("ValueError")
+        return set(), [({"pin": 0 if s < 0 else 52}, True)]
+    extra = set()
+    if M.raw_salt:
+        if not isinstance(s, bytes):
+            raise Refuse("TypeError")
+    else:
+        if isinstance(s, bytes):
+            if not relaxed:
+                raise Refuse("TypeError")
+            extra.add("TypeError")
+            try:
+                s = s.decode("ascii")
+            except UnicodeDecodeError:
+                raise Refuse("TypeError", "ValueError") from None
+        if not isinstance(s, str):
+            raise Refuse("TypeError")
+        if M.salt_chars is not None and any(ch not in M.salt_chars for ch in s):
+            raise Refuse("ValueError")
+    mn, mx = M.mn_s or 0, M.mx_s
+    if len(s) < mn:
+        raise Refuse("ValueError")
+    c = False
+    if mx is not None and len(s) > mx:
+        if not relaxed:
+            raise Refuse("ValueError")
+        s, c = s[:mx], True
+    return extra, [({"pin": jval(s)}, c)]
+
+
+def g_ident(M, P, o, relaxed):
+    if "ident" in o and "default_ident" in o:
+        raise Refuse("TypeError")
+    i = o.get("ident", o.get("default_ident"))
+    if isinstance(i, bytes):
+        try:
+            i = i.decode("ascii")
+        except UnicodeDecodeError:
+            raise Refuse("ValueError", "TypeError") from None
+    if not isinstance(i, str):
+        raise Refuse("TypeError", "ValueError")
+    if i in M.ident_all:
+        return set(), [({"ident": i}, False)]
+    a = M.aliases.get(i)
+    if a is not None and a in M.ident_all:
+        return set(), [({"ident": a}, False)]
+    raise Refuse("ValueError")
+
+
+def g_trunc(M, P, o, relaxed):
+    v = o["truncate_error"]
+    if isinstance(v, (str, bytes)):
+        t = (v.decode("ascii", "replace") if isinstance(v, bytes) else v).strip().lower()
+        if t in BOOLS:
+            return set(), [({"trunc": BOOLS[t]}, False)]
+        if t in ("", "none"):
+            return set(), [({}, False)]
+        raise Refuse("ValueError")
+    return set(), [({"trunc": bool(v)}, False)]
+
+
+def g_variant(M, P, o, relaxed):
+    v = o["variant"]
+    if isinstance(v, bytes):
+        v = v.decode("ascii", "replace")
+    if isinstance(v, str):
+        if v not in FSHP_ALIASES:
+            raise Refuse("ValueError")
+        v = FSHP_ALIASES[v]
+    if isinstance(v, bool) or not isinstance(v, int):
+        raise Refuse("TypeError")
+    if v not in (0, 1, 2, 3):
+        raise Refuse("ValueError")
+    return set(), [({"variant": v}, False)]
+
+
+def g_version(M, P, o, relaxed):
+    v = o["version"]
+    extra = set()
+    if isinstance(v, str):
+        extra.add("ValueError")
+        extra.add("TypeError")
+        try:
+            v = int(v)
+        except ValueError:
+            raise Refuse("ValueError", "TypeError") from None
+    if isinstance(v, bool) or not isinstance(v, int):
+        raise Refuse("TypeError", "ValueError")
+    if v not in (1, 2):
+        raise Refuse("ValueError")
+    return extra, [({"version": v}, False)]
+
+
+def g_scrypt(M, P, o, relaxed):
+    upd = {}
+    c = False
+    for k, f in (("block_size", "bsize"), ("parallelism", "par")):
+        if k in o:
+            v = _toint(o[k])
+            if v < 1:
+                if not relaxed:
+                    raise Refuse("ValueError")
+                v, c = 1, True
+            upd[f] = v
+    return set(), [(upd, c)]
+
+
+def g_algs(M, P, o, relaxed):
+    if "algs" in o and "default_algs" in o:
+        raise Refuse("TypeError", "AssertionError")
+    a = o.get("algs", o.get("default_algs"))
+    if isinstance(a, str):
+        a = [x.strip() for x in a.split(",") if x.strip()]
+    out = []
+    for x in a:
+        n = ALG_NAMES.get(x.lower())
+        if n is None or len(n) > 9:
+            raise Refuse("ValueError")
+        out.append(n)
+    if "sha-1" not in out:
+        raise Refuse("ValueError")
+    return set(), [({"algs": sorted(set(out))}, False)]
+
+
+def g_marker(M, P, o, relaxed):
+    v = o["marker"]
+    if isinstance(v, bytes):
+        v = v.decode("ascii", "replace")
+    if not isinstance(v, str):
+        raise Refuse("TypeError", "ValueError")
+    if not v or v[0] not in "!*":
+        raise Refuse("ValueError")
+    return set(), [({"marker": v}, False)]
+
+
+def predict(M, P, opts, relaxed):
+    """-> (acceptable exception class names, [(model, clamped)])"""
+    predict.rules = []
+    unknown = [k for k in opts if k not in M.accept]
+    if unknown:
+        return {"TypeError"}, []
+    groups = []
+    o = dict(opts)
+
+    def take(keys):
+        return {k: o.pop(k) for k in keys if k in o}
+
+    sub = take(ROUNDS_KEYS)
+    if sub:
+        groups.append((g_rounds, sub))
+    sub = take(("salt_size", "default_salt_size"))
+    if sub:
+        groups.append((g_salt_size, sub))
+    for keys, fn in ((("salt",), g_salt), (("ident", "default_ident"), g_ident), (("truncate_error",), g_trunc),
+                     (("variant",), g_variant), (("version",), g_version), (("block_size", "parallelism"), g_scrypt),
+                     (("algs", "default_algs"), g_algs), (("marker",), g_marker)):
+        sub = take(keys)
+        if sub:
+            groups.append((fn, sub))
+    excs = set()
+    rules = set()
+    predict.rules = []
+    models = [(dict(P), False)]
+    refused = False
+    for fn, sub in groups:
+        try:
+            extra, alts = fn(M, P, sub, relaxed)
+        except Refuse as e:
+            excs |= e.names
+            refused = True
+            continue
+        excs |= extra
+        models = [(dict(m, **upd), c or c2) for m, c in models for upd, c2 in alts]
+    if refused:
+        return excs, []
+    out = []
+    for m, c in models:
+        # combination rules (a settings combination the format cannot hash must be refused as well)
+        if M.is_bsha and m.get("version", 2) > 1 and m.get("ident") != "$2b$":
+            excs.add("ValueError")
+            rules.add("bcrypt_sha256_v2_needs_2b")
+            continue
+        if M.is_scrypt and (m.get("bsize") or 1) * (m.get("par") or 1) > MAX_RP:
+            excs.add("ValueError")
+            rules.add("scrypt_r_times_p_limit")
+            continue
+        if M.is_scrypt and m.get("ident") == "$7$" and m.get("pin") is None and (4 * (m.get("ssize") or 0) + 2) // 3 > (M.mx_s or 1 << 62):
+            # the $7$ format stores the salt base64-encoded; the encoded salt must still fit max_salt_size
+            excs.add("ValueError")
+            rules.add("scrypt_7_encoded_salt_limit")
+            continue
+        out.append((m, c))
+    predict.rules = sorted(rules) if not out else []
+    return excs, out
+
+
+# ---------------------------------------------------------------------------
+# what hashes of a node must look like / what its update check must answer
+# ---------------------------------------------------------------------------
+def rounds_range(M, N):
+    """(L, U) documented range of the rounds of a new hash; None when the hasher has no rounds"""
+    d = N.get("dflt")
+    if not M.has_rounds or d is None:
+        return None
+    lo = max(N.get("mn_d") or 0, M.mn)
+    hi = M.mx if N.get("mx_d") is None else min(N["mx_d"], M.mx)
+    v = N.get("vary")
+    if not v:
+        return (d, d)
+    if isinstance(v, float):
+        if M.log2:
+            D = 1 << d
+            vv = int(D * v)
+            L = int(math.ceil(math.log2(D - vv))) if D - vv > 0 else 0
+            U = int(math.log2(D + vv))
+        else:
+            vv = int(d * v)
+            L, U = d - vv, d + vv
+    else:
+        L, U = d - v, d + v
+    return (min(clip(L, lo, hi), d), max(clip(U, lo, hi), d))
+
+
+def raw_vary_range(M, N):
+    """default +/- vary before any clipping (None without variation)"""
+    d, v = N.get("dflt"), N.get("vary")
+    if not M.has_rounds or d is None or not v:
+        return None
+    if isinstance(v, float):
+        if M.log2:
+            D = 1 << d
+            vv = int(D * v)
+            return (int(math.ceil(math.log2(D - vv))) if D - vv > 0 else 0, int(math.log2(D + vv)))
+        vv = int(d * v)
+        return (d - vv, d + vv)
+    return (d - v, d + v)
+
+
+def classify_rounds(M, N, r):
+    """None when r is an acceptable cost of a hash made by node N, else the failing class"""
+    if r is None:
+        return "rounds_missing"
+    if r < M.mn or (M.mx is not None and r > M.mx):
+        return "rounds_outside_hard_limits"
+    if N.get("mn_d") and r < N["mn_d"]:
+        return "rounds_below_window"
+    if N.get("mx_d") is not None and r > N["mx_d"]:
+        return "rounds_above_window"
+    rr = rounds_range(M, N)
+    if rr is None:
+        return None
+    L, U = rr
+    if L <= r <= U:
+        return None
+    if M.bsdi and r & 1 and L <= r - 1 <= U:
+        return None  # bsdi_crypt avoids even rounds (weak DES keys); tolerated while the result stays inside the window
+    return "rounds_not_default" if not N.get("vary") else "rounds_outside_vary_range"
+
+
+def expected_salt_len(M, N, ident):
+    pin = N.get("pin")
+    if pin is not None:
+        return None
+    n = N.get("ssize")
+    if n is None:
+        return None
+    if M.is_scrypt and ident == "$7$":
+        return (4 * n + 2) // 3
+    return n
+
+
+def nu_expect(M, N, p):
+    """(expected answer, class of the reason)"""
+    r = p.get("rounds")
+    if r is not None and M.has_rounds:
+        if N.get("mn_d") and r < N["mn_d"]:
+            return True, "below_window"
+        if N.get("mx_d") is not None and r > N["mx_d"]:
+            return True, "above_window"
+    if M.bsdi and r is not None and not r & 1:
+        return True, "even_rounds"
+    if M.is_scrypt and (p.get("block_size") != N.get("bsize") or p.get("parallelism") != N.get("par")):
+        return True, "parameter_drift"
+    if M.is_scram and not set(p.get("algs") or ()) >= set(N.get("algs") or ()):
+        return True, "missing_alg"
+    if M.is_bsha and p.get("version", 2) < N.get("version", 2):
+        return True, "old_version"
+    return False, "inside_window"
+
+
+# ---------------------------------------------------------------------------
+# observation of the real objects
+# ---------------------------------------------------------------------------
+def parse_made(M, h):
+    """settings carried by a hash / config string of hasher M, parsed by the UNCONFIGURED global hasher"""
+    if isinstance(h, bytes):
+        h = h.decode("ascii")
+    out = {}
+    if M.is_unixdis:
+        out["marker"] = h
+        return out
+    if not M.generic:
+        return out
+    inner = M.G._unwrap_hash(h) if M.wrapper else h
+    obj = M.T0.from_string(inner)
+    if M.has_rounds:
+        out["rounds"] = obj.rounds
+    if M.has_salt:
+        s = obj.salt
+        out["salt"] = jval(s)
+        out["salt_len"] = None if M.cisco7 else len(s)
+    if M.has_ident:
+        out["ident"] = obj.ident
+    if M.is_fshp:
+        out["variant"] = obj.variant
+    if M.is_bsha:
+        out["version"] = obj.version
+    if M.is_scrypt:
+        out["block_size"] = obj.block_size
+        out["parallelism"] = obj.parallelism
+    if M.is_scram:
+        out["algs"] = sorted(obj.algs)
+    return out
+
+
+def observe_made(M, obj, mode, filler, real=False):
+    """make one config string (real=False: same constructor path as hash(), no digest) or one real hash"""
+    rng = PinRng(mode, filler)
+    try:
+        with env.scripted_rng(rng):
+            if real or not M.generic:
+                h = obj.hash(PW, **M.ckw)
+            else:
+                h = obj.genconfig()
+    except core.HarnessError:
+        raise
+    except Exception as e:  # noqa: BLE001
+        return {"error": type(e).__name__, "detail": core.short(e, 100)}, None
+    try:
+        return parse_made(M, h), h
+    except core.HarnessError:
+        raise
+    except Exception as e:  # noqa: BLE001
+        return {"error": "unparseable:" + type(e).__name__, "detail": core.short(h, 80)}, h
+
+
+def build_probes(M, seed):
+    """needs_update probe table, made once by the unconfigured hasher (constructor path, no using())"""
+    if M.probes is not None:
+        return M.probes
+    probes = []
+    T0 = M.T0
+
+    def mk(label, **settings):
+        kw = dict(settings)
+        if M.has_salt and not M.cisco7:
+            size = M.root.get("ssize") or M.mx_s or M.mn_s or 8
+            kw["salt"] = pinned_salt(M, size, seed, 9)
+        try:
+            with env.scripted_rng(PinRng("lo", 7)):
+                h = T0.genconfig(**kw)
+            if M.wrapper:
+                h = M.G._wrap_hash(h)
+            info = parse_made(M, h)
+        except Exception as e:  # noqa: BLE001
+            raise core.HarnessError(f"cannot build needs_update probe {label} for {M.name}: {e!r}") from None
+        info.pop("salt", None)
+        info["label"] = label
+        info["hash"] = h
+        probes.append(info)
+
+    if M.has_rounds:
+        V = rounds_values(M)
+        base = {V[k] for k in ("at_min", "in1", "in2", "in3", "at_max")}
+        vals = set()
+        for b in base:
+            vals |= {b - 1, b, b + 1}
+        vals = sorted(v for v in vals if M.mn <= v <= M.mx)
+        extra = {}
+        if M.is_scrypt:
+            extra = {"block_size": 8, "parallelism": 1}
+        for r in vals:
+            mk(f"rounds={r}", rounds=r, **extra)
+        r = V["in2"]
+        if M.is_scrypt:
+            for bs, p in ((1, 1), (2, 1), (8, 2), (1, 2)):
+                for rr in (V["in1"], V["in3"]):
+                    mk(f"rounds={rr},r={bs},p={p}", rounds=rr, block_size=bs, parallelism=p)
+        if M.is_scram:
+            for a in ("sha-1", "sha-1,sha-256", "md5,sha-1", "sha-1,sha-512"):
+                mk(f"rounds={r},algs={a}", rounds=r, algs=a)
+        if M.is_bsha:
+            mk(f"rounds={r},v1,2a", rounds=r, version=1, ident="$2a$")
+            mk(f"rounds={r},v1,2b", rounds=r, version=1, ident="$2b$")
+        elif M.has_ident:
+            for i in M.idents:
+                mk(f"rounds={r},ident={i}", rounds=r, ident=i)
+        if M.is_fshp:
+            for v in (0, 2, 3):
+                mk(f"rounds={r},variant={v}", rounds=r, variant=v)
+    elif M.generic:
+        mk("default")
+    else:
+        try:
+            h = M.G.hash(PW, **M.ckw)
+        except Exception as e:  # noqa: BLE001
+            raise core.HarnessError(f"cannot build probe for {M.name}: {e!r}") from None
+        probes.append({"label": "default", "hash": h})
+    M.probes = probes
+    return probes
+
+
+def nu_obs(obj, h, **kw):
+    try:
+        return bool(obj.needs_update(h, **kw))
+    except core.HarnessError:
+        raise
+    except Exception as e:  # noqa: BLE001
+        return "raises:" + type(e).__name__
+
+
+class Node:
+    __slots__ = ("M", "obj", "model", "parent", "role", "base")
+
+    def __init__(self, M, obj, model, parent, role):
+        self.M = M
+        self.obj = obj
+        self.model = model
+        self.parent = parent
+        self.role = role  # global | derived | wrapped | ctx
+        self.base = None  # raw class dictionaries of a derived node (own class / wrapper only)
+
+
+def own_holders(obj):
+    if is_wrapper(obj):
+        return [obj, obj.wrapped]
+    return [obj]
+
+
+class World:
+    def __init__(self, name, seed, tier):
+        self.name = name
+        self.seed = seed
+        self.tier = tier
+        self.M = meta(name)
+        self.fa, self.fb = fillers(seed)
+        self.nodes = []
+        self.observers = []
+        self.hist = []
+        self.snaps = None
+        self.root_checked = False
+        self.counts = {}
+        self.outcome = None
+
+
+def snapshot(W, nd):
+    M, obj = nd.M, nd.obj
+    s = {}
+    inner = obj
+    if M.wrapper:
+        s["outer"] = {a: jval(getattr(obj, a, MISSING)) for a in M.outer_attrs}
+        inner = obj.wrapped
+    s["attrs"] = {a: jval(getattr(inner, a, MISSING)) for a in ATTRS}
+    s["lo"], _ = observe_made(M, obj, "lo", W.fa)
+    s["hi"], _ = observe_made(M, obj, "hi", W.fb)
+    if M.trunc_size is not None:
+        s["trunc"] = observe_trunc(W, nd, s)
+    s["nu"] = [nu_obs(obj, p["hash"]) for p in build_probes(M, W.seed)]
+    return s
+
+
+def cap_ms(W, depth):
+    if W.tier == "thorough" and depth <= 1:
+        return 45.0
+    return 3.2
+
+
+def affordable(W, nd, made, depth):
+    if "error" in made:
+        return False
+    st = dict(made)
+    return est_ms(nd.M, st) <= cap_ms(W, depth)
+
+
+def observe_trunc(W, nd, s):
+    """does hash() of a password one byte over the limit raise PasswordTruncateError?"""
+    from passlib import exc
+
+    M = nd.M
+    want = nd.model.get("trunc")
+    cheap = affordable(W, nd, s["lo"], 9) and affordable(W, nd, s["hi"], 9)
+    if not want and not cheap:
+        return "skipped"
+    long_pw = "x" * (M.trunc_size + 1)
+    try:
+        with env.scripted_rng(PinRng("lo", W.fa)):
+            nd.obj.hash(long_pw, **M.ckw)
+    except exc.PasswordTruncateError:
+        return "refused"
+    except core.HarnessError:
+        raise
+    except Exception as e:  # noqa: BLE001
+        return "raises:" + type(e).__name__
+    return "accepted"
+
+
+def compare(W, nd, s):
+    """[(aspect, failing class, description)] -- differences between node's snapshot and its model"""
+    M, N = nd.M, nd.model
+    out = []
+    zq0 = ":max_is_zero" if (M.has_rounds and N.get("mx_d") == 0) else ""
+    # ---- attributes
+    a_mn, a_mx = s["attrs"].get("min_desired_rounds"), s["attrs"].get("max_desired_rounds")
+    inverted = isinstance(a_mn, int) and isinstance(a_mx, int) and not isinstance(a_mn, bool) and a_mn > a_mx
+    if inverted and M.has_rounds:
+        out.append(("rounds", "window_inverted",
+                    f"min_desired_rounds={a_mn} is above max_desired_rounds={a_mx}: no hash can satisfy this hasher's own update check"))
+    for a in ATTRS:
+        f = ATTR_FIELD.get(a)
+        want = N.get(f) if f in M.fields else M.static[a]
+        got = s["attrs"][a]
+        if not same(jval(want), got):
+            if inverted and ATTR_ASPECT.get(a) == "rounds":
+                continue
+            out.append((ATTR_ASPECT.get(a, "other"), f"attr:{a}" + (zq0 if ATTR_ASPECT.get(a) == "rounds" else ""),
+                        f"{a} is {got!r}, reference model says {want!r}"))
+    if M.wrapper:
+        for a in M.outer_attrs:
+            f = ATTR_FIELD.get(a)
+            want = M.name if a == "name" else (N.get(f) if f in M.fields else M.static[a])
+            got = s["outer"][a]
+            if not same(jval(want), got):
+                if inverted and ATTR_ASPECT.get(a) == "rounds":
+                    continue
+                out.append(("wrapper", f"proxy_attr:{a}", f"wrapper attribute {a} is {got!r}, reference model says {want!r}"))
+    if inverted:
+        return out
+    # ---- hashes made
+    zq = ":max_is_zero" if (M.has_rounds and N.get("mx_d") == 0) else ""
+    salts = []
+    for mode in ("lo", "hi"):
+        m = s[mode]
+        if "error" in m:
+            cls = f"made:raises:{m['error']}"
+            rr = raw_vary_range(M, N)
+            if M.has_rounds and rr is not None and (rr[0] < M.mn or rr[1] > M.mx) and m["error"] == "ValueError":
+                cls = "made:vary_range_outside_hard_limits"
+            elif M.has_rounds and N.get("dflt") == 0:
+                cls += ":default_is_zero"
+            if not any(x[1] == cls for x in out):
+                out.append(("rounds_made" if M.has_rounds else "other", cls,
+                            f"making a hash with the random source at its {mode} end failed: {m['error']} {m.get('detail')}; window "
+                            f"[{N.get('mn_d')}, {N.get('mx_d')}], default {N.get('dflt')}, vary {N.get('vary')}, hard limits [{M.mn}, {M.mx}]"))
+            continue
+        if M.has_rounds:
+            c = classify_rounds(M, N, m.get("rounds"))
+            if c and not any(x[1] == f"made:{c}{zq}" for x in out):
+                out.append(("rounds_made", f"made:{c}{zq}",
+                            f"a new hash has rounds={m.get('rounds')} ({mode} end of the random draw); window "
+                            f"[{N.get('mn_d')}, {N.get('mx_d')}], default {N.get('dflt')}, vary {N.get('vary')}, "
+                            f"hard limits [{M.mn}, {M.mx}], documented range {rounds_range(M, N)}"))
+        if M.has_salt:
+            salts.append(m.get("salt"))
+            pin = N.get("pin")
+            if pin is not None:
+                if not same(jval(pin), m.get("salt")):
+                    out.append(("salt", "made:salt_not_pinned", f"a new hash has salt {m.get('salt')!r}, the pinned salt is {pin!r}"))
+            elif not M.cisco7:
+                want = expected_salt_len(M, N, m.get("ident"))
+                if want is not None and m.get("salt_len") != want:
+                    cls = "made:salt_size"
+                    if (M.mn_s and m.get("salt_len", 0) < M.mn_s) or (M.mx_s and not (M.is_scrypt and m.get("ident") == "$7$") and m.get("salt_len", 0) > M.mx_s):
+                        cls = "made:salt_size_outside_hard_limits"
+                    out.append(("salt", cls, f"a new hash has a salt of size {m.get('salt_len')}, configured {N.get('ssize')} (expected {want})"))
+        for fld, mf in (("ident", "ident"), ("variant", "variant"), ("version", "version"), ("block_size", "bsize"),
+                        ("parallelism", "par"), ("algs", "algs"), ("marker", "marker")):
+            if fld in m and mf in M.fields and not same(jval(N.get(mf)), jval(m[fld])):
+                out.append(("ident" if fld == "ident" else "other", f"made:{fld}", f"a new hash carries {fld}={m[fld]!r}, configured {N.get(mf)!r}"))
+    if M.has_salt and len(salts) == 2 and N.get("pin") is None:
+        big = M.cisco7 or (N.get("ssize") or 0) > 0
+        if big and salts[0] == salts[1]:
+            out.append(("salt", "made:salt_fixed", f"two hashes made under different random answers share the salt {salts[0]!r} although no salt is pinned"))
+    # ---- truncation policy
+    if M.trunc_size is not None:
+        t = s.get("trunc")
+        want = "refused" if N.get("trunc") else "accepted"
+        if t != "skipped" and t != want:
+            out.append(("truncate", f"truncate_policy:{t.split(':')[0]}",
+                        f"hash() of a {M.trunc_size + 1}-byte password: {t}; truncate_error={N.get('trunc')!r} demands {want}"))
+    # ---- update check
+    for p, got in zip(build_probes(M, W.seed), s["nu"]):
+        want, why = nu_expect(M, N, p)
+        if got is want:
+            continue
+        if isinstance(got, str):
+            cls = f"needs_update:{got}"
+        elif want:
+            cls = f"needs_update:{why}_not_flagged" + (zq if why == "above_window" else "")
+        else:
+            cls = "needs_update:inside_window_flagged"
+        if any(x[1] == cls for x in out):
+            continue
+        out.append(("needs_update", cls, f"needs_update(hash with {p['label']}) = {got!r}, reference says {want} ({why}); window "
+                    f"[{N.get('mn_d')}, {N.get('mx_d')}]"))
+    return out
+
+
+def canon_snap(s):
+    c = {k: v for k, v in s.items()}
+    for mode in ("lo", "hi"):
+        m = dict(c[mode])
+        m.pop("detail", None)
+        c[mode] = m
+    return c
+
+
+# ---------------------------------------------------------------------------
+# world construction and the transition function (real implementation + model, side by side)
+# ---------------------------------------------------------------------------
+def new_world(name, seed, tier):
+    from passlib.context import CryptContext
+
+    W = World(name, seed, tier)
+    M = W.M
+    build_probes(M, seed)
+    W.nodes.append(Node(M, M.G, dict(M.root), None, "global"))
+    if M.wrapper:
+        Mi = meta(M.inner_name)
+        build_probes(Mi, seed)
+        W.observers.append(Node(Mi, M.T0, dict(Mi.root), None, "wrapped"))
+    if M.ctx_ok is not False:
+        try:
+            cc = CryptContext(schemes=[name])
+            ch = cc.handler(name)
+            M.ctx_ok = True
+        except Exception:  # noqa: BLE001
+            M.ctx_ok = False
+        else:
+            nd = Node(M, ch, dict(M.root), 0, "ctx")
+            nd.base = raw_snapshot(own_holders(ch))
+            W.observers.append(nd)
+    return W
+
+
+def raw_aspect(attr):
+    return ATTR_ASPECT.get(attr, "salt" if "salt" in attr else "other")
+
+
+def role_of(W, idx, target, newidx):
+    nd = W.nodes[idx]
+    if nd.role == "global":
+        return "global"
+    if idx == target:
+        return "parent" if newidx is not None else "self"
+    return "other"
+
+
+HARD_ONLY = ("made:rounds_outside_hard_limits", "made:salt_size_outside_hard_limits")
+
+
+def full_check(W, prefix, aspect0, target, newidx, depth, real_for=None, hard_only=False):
+    """snapshot every node, compare with the model; -> [(key, desc)]"""
+    M = W.M
+    out = []
+    snaps = []
+    subject = newidx if newidx is not None else target
+    for i, nd in enumerate(W.nodes):
+        s = snapshot(W, nd)
+        snaps.append(canon_snap(s))
+        diffs = compare(W, nd, s)
+        if i == subject:
+            if hard_only:
+                # wrongly accepted value: only "never yields a hash outside the hard limits" is demanded of the result
+                diffs = [x for x in diffs if x[1] in HARD_ONLY]
+            for asp, cls, desc in diffs:
+                # state properties of a node keep their class whatever event exposed them; attribute mismatches name the event
+                pre = prefix if cls.startswith(("attr:", "proxy_attr:")) else ""
+                out.append((key(M, asp, f"{pre}{cls}"), f"{M.name} node {i}: {desc}"))
+            if real_for == i and not diffs and not hard_only:
+                out += real_hash_check(W, nd, s, prefix, depth)
+        else:
+            role = role_of(W, i, target, newidx)
+            for asp, cls, desc in diffs:
+                out.append((key(M, asp, f"isolation:{role}:{cls}"), f"{M.name}: node {i} ({role}) changed although the event acted on node {subject}: {desc}"))
+    for nd in W.observers:
+        s = snapshot(W, nd)
+        snaps.append(canon_snap(s))
+        for asp, cls, desc in compare(W, nd, s):
+            out.append((key(nd.M if nd.role == "wrapped" else M, asp, f"isolation:{nd.role}:{cls}"),
+                        f"{M.name}: the {nd.role} observer changed: {desc}"))
+    # raw class dictionaries
+    for h, attr, how in raw_diff(M.pristine):
+        out.append((key(M, raw_aspect(attr), f"isolation:global:raw:{attr}"),
+                    f"{M.name}: attribute {attr!r} of {holder_name(h)} (global hasher / shared base class) was {how} by the event"))
+    if raw_diff(M.pristine):
+        raw_restore(M.pristine)
+    for i, nd in enumerate(W.nodes + W.observers):
+        if nd.base is None:
+            continue
+        role = nd.role if nd.role in ("ctx", "wrapped") else role_of(W, i, target, newidx)
+        for h, attr, how in raw_diff(nd.base):
+            out.append((key(M, raw_aspect(attr), f"isolation:{role}:raw:{attr}"),
+                        f"{M.name}: attribute {attr!r} of {holder_name(h)} ({role} node) was {how} by an event on another node"))
+    W.snaps = snaps
+    return out
+
+
+def real_hash_check(W, nd, s, prefix, depth):
+    """one REAL hash of the node (when affordable): same settings as the config observation, verifies, no update needed"""
+    M = nd.M
+    out = []
+    if not (affordable(W, nd, s["lo"], depth) and affordable(W, nd, s["hi"], depth)):
+        W.counts["hash_config_only"] = W.counts.get("hash_config_only", 0) + 1
+        return out
+    W.counts["hash_real"] = W.counts.get("hash_real", 0) + 1
+    made, h = observe_made(M, nd.obj, "hi", W.fb, real=True)
+    asp = "rounds" if M.has_rounds else "other"
+    if "error" in made:
+        return [(key(M, asp, f"{prefix}hash:raises:{made['error']}"), f"{M.name}: hash() failed: {made['error']} {made.get('detail')}")]
+    ref = dict(s["hi"])
+    if made != ref:
+        out.append((key(M, asp, f"{prefix}hash:settings_differ"), f"{M.name}: hash() carries {made!r}, the config string made under the same random answers {ref!r}"))
+    G = W.nodes[0].obj
+    try:
+        if not M.disabled:
+            if nd.obj.verify(PW, h, **M.ckw) is not True:
+                out.append((key(M, "other", f"{prefix}hash:own_verify_false"), f"{M.name}: the node does not verify its own hash {h!r}"))
+            if G.verify(PW, h, **M.ckw) is not True:
+                out.append((key(M, "other", f"{prefix}hash:global_verify_false"), f"{M.name}: passlib.hash.{M.name} does not verify the derived hasher's hash {h!r}"))
+            if M.name not in HS.PLAINTEXT and nd.obj.verify(PW_OTHER, h, **M.ckw):
+                out.append((key(M, "other", f"{prefix}hash:wrong_password_accepted"), f"{M.name}: another password verifies against {h!r}"))
+        nu = nu_obs(nd.obj, h)
+        if nu is not False:
+            out.append((key(M, "needs_update", f"{prefix}hash:own_hash_needs_update"), f"{M.name}: needs_update() of the node's own fresh hash {h!r} = {nu!r}"))
+    except core.HarnessError:
+        raise
+    except Exception as e:  # noqa: BLE001
+        out.append((key(M, "other", f"{prefix}hash:verify_raises:{type(e).__name__}"), f"{M.name}: verify / needs_update of {h!r} raised {e!r}"))
+    return out
+
+
+def exc_ok(e, names):
+    import builtins
+
+    for n in names:
+        c = getattr(builtins, n, None)
+        if c is not None and isinstance(e, c):
+            return True
+    return False
+
+
+def dyn_attrs_match(M, obj, model):
+    inner = obj.wrapped if is_wrapper(obj) else obj
+    for f in M.fields:
+        if not same(jval(model.get(f)), jval(getattr(inner, FIELD_ATTR[f], MISSING))):
+            return False
+    return True
+
+
+def opt_label(opts):
+    return "+".join(sorted(opts)) or "none"
+
+
+def do_derive(W, ev, check):
+    from passlib import exc as pexc
+
+    M = W.M
+    t = ev["node"]
+    nd = W.nodes[t]
+    opts, relaxed, tag = ev["opts"], ev["relaxed"], ev["tag"]
+    mode = "relaxed" if relaxed else "strict"
+    okey = opt_label(opts)
+    aspect = OPT_ASPECT.get(sorted(opts)[0], "other") if opts else "other"
+    names, models = predict(M, nd.model, opts, relaxed)
+    rules = list(predict.rules)
+    kw = dict(opts)
+    if relaxed:
+        kw["relaxed"] = True
+    err = new = None
+    with warnings.catch_warnings(record=True) as wl:
+        warnings.simplefilter("always")
+        try:
+            with env.scripted_rng(PinRng("lo", W.fa)):
+                new = nd.obj.using(**kw)
+        except core.HarnessError:
+            raise
+        except Exception as e:  # noqa: BLE001
+            err = e
+    out = []
+    depth = len(W.hist) + 1
+    if err is not None:
+        W.outcome = "raise:" + type(err).__name__
+        if check:
+            if not exc_ok(err, names):
+                what = "refused" if models else "raised"
+                out.append((key(M, aspect, f"derive:{tag}:{mode}:{what}:{type(err).__name__}"),
+                            f"{M.name}: node {t}.using({kw!r}) raised {err!r}; the reference model allows "
+                            f"{'the new hasher ' + repr(models[0][0]) if models else sorted(names)}"))
+            out += full_check(W, "", aspect, t, None, depth)
+            # a refused using() leaves node t itself unchanged as well (it is compared as the subject above)
+        return out
+    # accepted: register the node, pick the matching acceptable outcome
+    chosen, clamped = None, False
+    for m, c in models:
+        if dyn_attrs_match(M, new, m):
+            chosen, clamped = m, c
+            break
+    wrongly = not models
+    if chosen is None:
+        chosen, clamped = (models[0] if models else (dict(nd.model), False))
+    newnode = Node(M, new, dict(chosen), t, "derived")
+    W.nodes.append(newnode)
+    newidx = len(W.nodes) - 1
+    W.outcome = "ok" + (":clamped" if clamped else "")
+    if check:
+        if wrongly:
+            cls = f"derive:{rules[0]}:accepted" if rules else f"derive:{tag}:{mode}:accepted"
+            out.append((key(M, aspect, cls),
+                        f"{M.name}: node {t}.using({kw!r}) returned a hasher; the reference model demands {sorted(names)}"
+                        + (f" (rule {rules[0]})" if rules else "")))
+        # identity: a NEW object, not sharing its class with any older node
+        olds = W.nodes[:-1] + W.observers
+        if any(new is o.obj for o in olds):
+            out.append((key(M, "wrapper" if M.wrapper else "other", "derive:returned_existing_object"),
+                        f"{M.name}: using() returned an already existing hasher object"))
+        if M.wrapper:
+            if not is_wrapper(new):
+                out.append((key(M, "wrapper", "derive:not_a_wrapper"), f"{M.name}: using() of a PrefixWrapper returned {type(new).__name__}"))
+            else:
+                if any(new.wrapped is (o.obj.wrapped if is_wrapper(o.obj) else o.obj) for o in olds):
+                    out.append((key(M, "wrapper", "derive:wrapped_class_shared"),
+                                f"{M.name}: the new wrapper wraps the same class object as an older hasher"))
+                for a in ("name", "prefix", "orig_prefix"):
+                    if getattr(new, a, None) != getattr(M.G, a, None):
+                        out.append((key(M, "wrapper", f"derive:wrapper_{a}"), f"{M.name}: new wrapper has {a}={getattr(new, a, None)!r}"))
+        if clamped and not wrongly:
+            if not any(issubclass(w.category, pexc.PasslibWarning) for w in wl):
+                out.append((key(M, aspect, f"derive:{tag}:relaxed:no_warning"),
+                            f"{M.name}: node {t}.using({kw!r}) corrected the value without issuing a Passlib warning"))
+        out += full_check(W, "", aspect, t, newidx, depth, real_for=newidx, hard_only=wrongly)
+    newnode.base = raw_snapshot(own_holders(new))
+    return out
+
+
+def do_hash(W, ev, check):
+    M = W.M
+    t = ev["node"]
+    W.outcome = "hash"
+    if not check:
+        return []
+    return full_check(W, "hash:", "other", t, None, len(W.hist) + 1, real_for=t)
+
+
+def do_needs_update(W, ev, check):
+    M = W.M
+    t = ev["node"]
+    nd = W.nodes[t]
+    W.outcome = "needs_update"
+    if not check:
+        return []
+    out = []
+    for p in build_probes(M, W.seed):
+        want, why = nu_expect(M, nd.model, p)
+        for kw in ({"secret": PW},):
+            got = nu_obs(nd.obj, p["hash"], **kw)
+            if got is not want:
+                cls = f"needs_update_event:{got}" if isinstance(got, str) else f"needs_update_event:{why}:{'not_flagged' if want else 'flagged'}"
+                out.append((key(M, "needs_update", cls), f"{M.name}: node {t}.needs_update(hash with {p['label']}, secret=...) = {got!r}, reference says {want} ({why})"))
+    out += full_check(W, "needs_update_event:", "needs_update", t, None, len(W.hist) + 1)
+    return out
+
+
+def do_setattr(W, ev, check):
+    M = W.M
+    t = ev["node"]
+    nd = W.nodes[t]
+    attr, val = ev["attr"], ev["value"]
+    W.outcome = "setattr"
+    try:
+        setattr(nd.obj, attr, val)
+    except core.HarnessError:
+        raise
+    except Exception as e:  # noqa: BLE001
+        if check:
+            return [(key(M, "wrapper", f"setattr:{attr}:raises:{type(e).__name__}"), f"{M.name}: setattr(node {t}, {attr!r}, {val!r}) raised {e!r}")]
+        return []
+    nd.model[ATTR_FIELD[attr]] = val
+    nd.base = raw_snapshot(own_holders(nd.obj))
+    if not check:
+        return []
+    out = []
+    if attr in vars(nd.obj):
+        out.append((key(M, "wrapper", f"setattr:{attr}:not_proxied"), f"{M.name}: setattr on a derived wrapper stored {attr!r} on the wrapper itself"))
+    out += full_check(W, f"setattr:{attr}:", "wrapper", t, None, len(W.hist) + 1, real_for=t)
+    return out
+
+
+OPS = {"derive": do_derive, "hash": do_hash, "needs_update": do_needs_update, "setattr": do_setattr}
+
+
+def apply(W, ev, check):
+    if ev["node"] >= len(W.nodes):
+        raise core.HarnessError(f"event {ev!r} refers to a node that does not exist (history {W.hist!r})")
+    out = OPS[ev["op"]](W, ev, check)
+    W.hist.append(ev)
+    return out
+
+
+# ---------------------------------------------------------------------------
+# explorer plumbing
+# ---------------------------------------------------------------------------
+LEVELS = {"quick": (2, 1), "thorough": (3, 1, 0)}  # alphabet level per depth; len = max depth
+
+
+def setattr_events(W, i):
+    nd = W.nodes[i]
+    M, N = nd.M, nd.model
+    out = []
+    if nd.role != "derived" or not M.wrapper:
+        return out
+    if M.has_rounds:
+        V = rounds_values(M)
+        v = clip(V["in2"], max(N.get("mn_d") or 0, M.mn), M.mx if N.get("mx_d") is None else N["mx_d"])
+        if v != N.get("dflt"):
+            out.append({"op": "setattr", "node": i, "attr": "default_rounds", "value": v})
+        if N.get("vary") != 1:
+            out.append({"op": "setattr", "node": i, "attr": "vary_rounds", "value": 1})
+    if M.has_ssize:
+        mn, mx = M.mn_s or 0, M.mx_s
+        v = mn + 2 if (mx is None or mn + 2 <= mx) else mn
+        if v != N.get("ssize"):
+            out.append({"op": "setattr", "node": i, "attr": "default_salt_size", "value": v})
+    if M.trunc_size is not None:
+        out.append({"op": "setattr", "node": i, "attr": "truncate_error", "value": not N.get("trunc")})
+    return out
+
+
+def enabled_events(W, group):
+    depth = len(W.hist)
+    levels = LEVELS[W.tier]
+    if depth >= len(levels):
+        return []
+    lvl = levels[depth]
+    M = W.M
+    evs = []
+    for i in range(len(W.nodes)):
+        for elvl, g, opts, relaxed, tag in events_of(M, W.seed):
+            if elvl > lvl or (depth == 0 and g != group):
+                continue
+            evs.append({"op": "derive", "node": i, "opts": opts, "relaxed": relaxed, "tag": tag})
+    if depth > 0 or group == "misc":
+        for i in range(len(W.nodes)):
+            evs.append({"op": "hash", "node": i})
+            if lvl >= 1:
+                evs.append({"op": "needs_update", "node": i})
+                evs += setattr_events(W, i)
+    return evs
+
+
+def event_label(ev):
+    if ev["op"] == "derive":
+        return "derive:" + opt_label(ev["opts"])
+    if ev["op"] == "setattr":
+        return "setattr:" + ev["attr"]
+    return ev["op"]
+
+
+def groups_of(M, seed, tier):
+    lvl = LEVELS[tier][0]
+    gs = []
+    for elvl, g, _o, _r, _t in events_of(M, seed):
+        if elvl <= lvl and g not in gs:
+            gs.append(g)
+    if "misc" not in gs:
+        gs.append("misc")
+    return gs
+
+
+def canon(W):
+    if W.snaps is None:
+        W.snaps = [canon_snap(snapshot(W, nd)) for nd in W.nodes + W.observers]
+    blob = json.dumps([W.name, W.snaps], sort_keys=True, default=str)
+    return hashlib.sha1(blob.encode()).hexdigest()[:20]
+
+
+def make_fns(name, seed, tier, group=None, on_step=None, digests=None):
+    def build(hist):
+        W = new_world(name, seed, tier)
+        for ev in hist:
+            apply(W, ev, False)
+        W.snaps = None
+        return W
+
+    def step(W, ev):
+        vs = apply(W, ev, True)
+        if on_step is not None:
+            on_step(W, ev, vs)
+        return vs
+
+    def invariant(W):
+        if W.hist or W.root_checked:
+            return []
+        W.root_checked = True
+        return full_check(W, "root:", "other", 0, None, 0)
+
+    def canon_(W):
+        d = canon(W)
+        if digests is not None:
+            digests.add(d)
+        return d
+
+    def events(W):
+        return enabled_events(W, group)
+
+    return build, events, step, canon_, invariant
+
+
+MAX_PER_KEY = 3
+
+
+def work(task):
+    name, group, seed, tier = task["hasher"], task["group"], task["seed"], task["tier"]
+    acc = Acc()
+    M = meta(name)
+    digests = set()
+
+    def on_step(W, ev, vs):
+        acc.ev()
+        lab = event_label(ev)
+        mode = "relaxed" if ev.get("relaxed") else "strict"
+        acc.cls("t", name, lab, ev.get("tag", ""), mode, W.outcome, "viol" if vs else "ok")
+        acc.outcome(f"{ev['op']}:{W.outcome}")
+        acc.axis("event", lab)
+        acc.axis("depth", len(W.hist))
+        acc.axis("nodes", len(W.nodes))
+        if ev["op"] == "derive":
+            acc.axis("value_class", ev["tag"].split(":")[1] if ":" in ev["tag"] else ev["tag"])
+            acc.axis("mode", mode)
+        for k, v in W.counts.items():
+            acc.count(k, v)
+        W.counts = {}
+
+    fns = make_fns(name, seed, tier, group, on_step, digests)
+    res = explore.bfs(*fns, max_depth=len(LEVELS[tier]), event_label=event_label)
+    for d in digests:
+        acc.cls("state", name, d)
+    acc.count("transitions", res.transitions)
+    acc.count(f"T|{name}", res.transitions)
+    acc.count(f"D|{name}|{res.max_depth}")
+    for lab, c in res.event_hist.items():
+        acc.count(f"E|{name}|{lab}", c)
+    acc.axis("hasher", name)
+    acc.axis("first_event_group", group)
+    per = {}
+    for k, desc, hist in res.violations:
+        per[k] = per.get(k, 0) + 1
+        if per[k] <= MAX_PER_KEY:
+            acc.violation(k, desc, {"hasher": name, "history": hist, "seed": seed, "tier": tier})
+        else:
+            acc.count("violations_beyond_cap")
+    for hist in res.samples[:1]:
+        if group in ("rounds", "salt_size", "special", "misc"):
+            acc.sample({"hasher": name, "history": hist, "seed": seed, "tier": tier})
+    # ---- the harness (and the library) must leave the global hashers exactly as they were
+    leaked = raw_diff(M.pristine)
+    for h, attr, how in leaked:
+        acc.violation(f"C09|{name}|global_mutated:{attr}",
+                      f"after exploring {name} (first events: {group}) attribute {attr!r} of {holder_name(h)} is {how} compared with the start of the run",
+                      {"kind": "shard", "hasher": name, "group": group, "seed": seed, "tier": tier})
+    if leaked:
+        raw_restore(M.pristine)
+    W = new_world(name, seed, tier)
+    for k, desc in full_check(W, "root:", "other", 0, None, 0):
+        cls = k.split("|", 2)[2]
+        acc.violation(f"C09|{name}|global_mutated:{cls}", f"after exploring {name} (first events: {group}): {desc}",
+                      {"kind": "shard", "hasher": name, "group": group, "seed": seed, "tier": tier})
+    return acc
+
+
+def replay(case):
+    if case.get("kind") == "shard":
+        acc = work({"hasher": case["hasher"], "group": case["group"], "seed": case["seed"], "tier": case["tier"]})
+        return [(k, d) for k, d, _c in acc.violations]
+    build, _events, step, _canon, invariant = make_fns(case["hasher"], case["seed"], case["tier"])
+    seen, out = set(), []
+    for k, d in explore.replay_history(build, step, invariant, case["history"]):
+        if (k, d) not in seen:
+            seen.add((k, d))
+            out.append((k, d))
+    return out
+
+
+def hasher_list(quick):
+    names = [n for n in REPS if n in HS.all_names() and HS.usable(n)]
+    for n in HS.usable_names():
+        if n not in names and is_wrapper(HS.handler(n)):
+            names.append(n)
+    if not quick:
+        for n in HS.usable_names():
+            if n not in names:
+                names.append(n)
+    return names
+
+
+def run(ctx):
+    names = hasher_list(ctx.quick)
+    tasks = []
+    for name in names:
+        M = meta(name)
+        for g in groups_of(M, ctx.seed, ctx.tier):
+            tasks.append({"hasher": name, "group": g, "seed": ctx.seed, "tier": ctx.tier,
+                          "w": (3 if M.has_rounds else 1) * (2 if M.wrapper else 1)})
+    tasks.sort(key=lambda t: -t["w"])
+    ctx.log(f"{len(names)} hashers, {len(tasks)} shards (hasher x first-event group)")
+    acc = core.pmap(work, tasks)
+    per = {}
+    for k in list(acc.counters):
+        if k[:2] in ("T|", "D|", "E|"):
+            parts = k.split("|")
+            ent = per.setdefault(parts[1], {"transitions": 0, "max_depth": 0, "states": 0, "events": {}})
+            v = acc.counters.pop(k)
+            if parts[0] == "T":
+                ent["transitions"] += v
+            elif parts[0] == "D":
+                ent["max_depth"] = max(ent["max_depth"], int(parts[2]))
+            else:
+                ent["events"][parts[2]] = ent["events"].get(parts[2], 0) + v
+    states = 0
+    for c in acc.classes:
+        if c.startswith("state|"):
+            states += 1
+            per[c.split("|")[1]]["states"] += 1
+    ctx.merge(acc)
+    trans = acc.counters.get("transitions", 0)
+    ctx.cov["states"] = states
+    ctx.cov["transitions"] = trans
+    ctx.cov["traces_validated_against_impl"] = trans
+    ctx.cov["max_depth"] = max([e["max_depth"] for e in per.values()] or [0])
+    ctx.cov["hashers"] = len(names)
+    ctx.cov["per_hasher"] = per
+    ctx.cov["explanation"] = (
+        "states = distinct tuples of observable snapshots of all live nodes (union over shards); transitions = events "
+        "executed on the real classes and compared with the reference model (every one of them); distinct_nontrivial "
+        "counts distinct transition classes plus distinct states"
+    )
+    ctx.assume("snapshots of nodes observe the settings a hash would carry through genconfig() (the same constructor "
+               "call hash() makes, without the digest); one REAL hash per transition is made, verified and parsed on the "
+               "new / addressed node whenever its cost is below ~3 ms (counters hash_real / hash_config_only)")
+    ctx.assume("hard limits are the class constants of the unconfigured global hashers (min_rounds, max_rounds, "
+               "min_salt_size, max_salt_size, salt_chars, ident_values), as documented on each hasher's page")
+    ctx.assume("an explicit salt= stays pinned in descendants even when they set salt_size (documentation silent)")
+    ctx.assume("bsdi_crypt's documented avoidance of even rounds (rounds|1) is tolerated while the result stays inside the configured window")
